@@ -98,7 +98,7 @@ def cfg(tier):
             "resample_rates": [8, 10, 12, 4000, 8000, 22050, 44100], "resample_lengths": [1, 2, 7, 16, 33],
             "resample_first": [0, 4], "resample_channels": [1, 2],
             "spec_frames": [64], "spec_first": [0, 8], "spec_channels": [1, 2],
-            "spec_windows": ["4", "8", "16", "9/2", "29/4"], "spec_hops": ["1", "2", "4", "3/2", "11/4"],
+            "spec_windows": ["4", "8", "16", "9/2", "29/4", "37"], "spec_hops": ["1", "2", "4", "3/2", "11/4"],
         }
     return {
         "te": ["1", "2", "10", "1/2", "4", "5"],
@@ -108,7 +108,7 @@ def cfg(tier):
         "resample_rates": [8, 10, 12, 4000, 8000, 11025, 16000, 22050, 44100, 48000, 96000],
         "resample_lengths": [1, 2, 3, 7, 16, 33, 64], "resample_first": [0, 4, 9], "resample_channels": [1, 2],
         "spec_frames": [33, 64], "spec_first": [0, 8], "spec_channels": [1, 2],
-        "spec_windows": ["4", "8", "16", "9/2", "29/4", "5", "25/2"],
+        "spec_windows": ["4", "8", "16", "9/2", "29/4", "5", "25/2", "37", "51"],
         "spec_hops": ["1", "2", "4", "3/2", "11/4", "3", "5/4", "7/2"],
     }
 
@@ -631,6 +631,8 @@ def blocks(tier):
     out.append({"space": "clip_odd_te", "tier": tier})
     out.append({"space": "rewrite", "tier": tier})
     out.append({"space": "relocate", "tier": tier})
+    # one file of more than 2^20 frames read as a whole and as a clip reaching past its end
+    out.append({"space": "long_file", "tier": tier})
     # one source of more than 2^20 samples per direction (beyond any plausible 'long signal' threshold of an implementation)
     out.append({"space": "resample_long", "src": 8000, "tgt": 32000})
     out.append({"space": "resample_long", "src": 8000, "tgt": 2000})
@@ -669,6 +671,11 @@ def cases_of(block):
             for ch in CHANNELS:
                 for i, j in clip_pairs(pts):
                     yield clip_case(rate, frames, ch, te, pts[i], pts[j])
+    elif sp == "long_file":
+        rate, frames = 8000, 2 ** 20 + 4096
+        yield {"space": "recording", "rate": rate, "frames": frames, "ch": 1, "te": "1"}
+        yield clip_case(rate, frames, 1, "1", F(1, 8), F(frames + 64, rate))
+        yield clip_case(rate, frames, 1, "1", F(2 ** 20 - 8, rate), F(frames, rate))
     elif sp == "clip_odd_te":
         rate, frames, te = 11025, 64, "3/2"
         sr = M.recording_rate(rate, TE[te])
